@@ -124,6 +124,8 @@ func main() {
 		emitFixturesMain(os.Args[2:])
 	case "refdigest":
 		refDigestMain(os.Args[2:])
+	case "refvariants":
+		refVariantsMain()
 	default:
 		fmt.Fprintln(os.Stderr, "unknown command", os.Args[1])
 		os.Exit(2)
